@@ -5,7 +5,8 @@
 
 use core::fmt::Write as FmtWrite;
 use core::hash::Hasher as CoreHasher;
-use highway::{HighwayHash, HighwayHasher, Key, PortableHash};
+use core::hash::BuildHasher as _;
+use highway::{HighwayBuildHasher, HighwayHash, HighwayHasher, Key, PortableHash};
 #[cfg(target_arch = "x86_64")]
 use highway::{AvxHash, SseHash};
 #[cfg(target_arch = "aarch64")]
@@ -389,6 +390,23 @@ impl Machine {
                 let r = construct(sel, op == b"fnew", self.cpu, Some(Key([a, b, c, d])), None, false);
                 out.s(if r.is_some() { "ok" } else { "none" });
                 self.hs[h] = r;
+            }
+            (b"bh", 6) => {
+                // a hasher handed out by the collection builder: `HighwayBuildHasher::new(key).build_hasher()`
+                let h = handle!(1);
+                let (Some(a), Some(b), Some(c), Some(d)) =
+                    (parse_u64_hex(toks[2]), parse_u64_hex(toks[3]), parse_u64_hex(toks[4]), parse_u64_hex(toks[5]))
+                else { bad!() };
+                let builder = HighwayBuildHasher::new(Key([a, b, c, d]));
+                self.hs[h] = Some(AnyHasher::Auto(builder.build_hasher()));
+                out.s("ok");
+            }
+            (b"bhd", 2) => {
+                // `HighwayBuildHasher::default().build_hasher()`
+                let h = handle!(1);
+                let builder = HighwayBuildHasher::default();
+                self.hs[h] = Some(AnyHasher::Auto(builder.build_hasher()));
+                out.s("ok");
             }
             (b"default", 3) => {
                 let h = handle!(1);
